@@ -348,4 +348,125 @@ theorem regEntries_subscribe (i : Nat) (p : PoolSt) :
 theorem regEntries_unsubscribe (i : Nat) (p : PoolSt) : regEntries i p poolUnsubscribe = regEntries i p poolSubscribe := by
   simp only [poolUnsubscribe, poolSubscribe]
 
+/-! ### a pool is removed / added at run time -/
+
+/-- `before_remove()` (= `_unsubscribe()`) and `del self.process_groups[name]` -/
+def deactivate (pi : Nat) (p : PoolSt) (w : W) : W :=
+  setPool { w with reg := unsubscribePool pi p w.reg } pi (fun q => { q with active := false })
+
+/-- `self.process_groups[name] = config.make_group()`: the new `EventListenerPool` subscribes in `__init__` -/
+def activate (pi : Nat) (p : PoolSt) (w : W) : W :=
+  { setPool w pi (fun q => { q with active := true, used := true }) with reg := subscribePool pi p w.reg }
+
+/-- **`remove_process_group` in closed form** (the regenerated statement list `groupRemoveSteps`, executed): a pool with
+    a live listener is refused and *nothing* changes; otherwise the pool unsubscribes, leaves the table, and
+    PROCESS_GROUP_REMOVED is announced -/
+theorem removeRun_eq (pi : Nat) (w : W) (p : PoolSt) (hp : w.pools[pi]? = some p) :
+    removeRun pi w = if unstopped p then (w, some false)
+      else (notify .PROCESS_GROUP_REMOVED (groupPayload p.name) (deactivate pi p w), some true) := by
+  by_cases hu : unstopped p = true
+  · simp [removeRun, runGroup, groupRemoveSteps, gstep, hp, hu]
+  · simp [removeRun, runGroup, groupRemoveSteps, gstep, hp, hu, beforeRemoveUnsubscribes, clsOfGroupEvent, getElem?_setPool, deactivate]
+
+/-- **`add_process_group` in closed form**: a pool that is in the table already is refused and nothing changes; otherwise
+    the pool object is created (and subscribes), enters the table, and PROCESS_GROUP_ADDED is announced -/
+theorem addRun_eq (pi : Nat) (w : W) (p : PoolSt) (hp : w.pools[pi]? = some p) :
+    addRun pi w = if p.active then (w, some false)
+      else (notify .PROCESS_GROUP_ADDED (groupPayload p.name) (activate pi p w), some true) := by
+  by_cases ha : p.active = true
+  · simp [addRun, runGroup, groupAddWhenPresent, gstep, hp, ha]
+  · simp [addRun, runGroup, groupAddWhenAbsent, gstep, hp, ha, initSubscribes, clsOfGroupEvent, getElem?_setPool, activate]
+
+theorem want_other (w w' : W) (pi : Nat) (h : ∀ j, j ≠ pi → w'.pools[j]? = w.pools[j]?) (x : Entry)
+    (hx : match x with
+      | (.cls _, .accept j) => j ≠ pi
+      | (.rejected, .handleRejected j) => j ≠ pi
+      | _ => True) : want w' x = want w x := by
+  obtain ⟨t, c⟩ := x
+  cases t <;> cases c <;> simp only [want] <;> simp only [] at hx <;> rw [h _ hx]
+
+theorem regOK_deactivate (pi : Nat) (p : PoolSt) (w : W) (hp : w.pools[pi]? = some p) (hr : RegOK w) :
+    RegOK (deactivate pi p w) := by
+  intro x
+  have hreg : (deactivate pi p w).reg = (regEntries pi p poolSubscribe).foldl (fun r e => Events.unsubscribe e.1 e.2 r) w.reg := by
+    simp [deactivate, setPool, unsubscribePool, regEntries_unsubscribe]
+  have hother : ∀ j, j ≠ pi → (deactivate pi p w).pools[j]? = w.pools[j]? := by
+    intro j hj
+    simp only [deactivate]
+    rw [getElem?_setPool, if_neg (Ne.symm hj)]
+  have hself : (deactivate pi p w).pools[pi]? = some { p with active := false } := by
+    simp only [deactivate]
+    rw [getElem?_setPool]; simp [hp]
+  have hes := regEntries_subscribe pi p x
+  have hle : (deactivate pi p w).reg.count x ≤ w.reg.count x - (regEntries pi p poolSubscribe).count x := by
+    rw [hreg]; exact count_foldl_unsubscribe_le x _ _
+  have heq : (regEntries pi p poolSubscribe).count x = 0 → (deactivate pi p w).reg.count x = w.reg.count x := by
+    intro h0; rw [hreg]; exact count_foldl_unsubscribe_other x _ _ (List.count_eq_zero.mp h0)
+  have hrx := hr x
+  obtain ⟨t, c⟩ := x
+  cases t <;> cases c
+  · -- (cls t, accept j)
+    rename_i t j
+    by_cases hj : j = pi
+    · subst hj
+      have hw : want w (RTy.cls t, Cb.accept j) ≤ p.subs.count t := by simp only [want, hp]; split <;> omega
+      have hw' : want (deactivate j p w) (RTy.cls t, Cb.accept j) = 0 := by simp [want, hself]
+      simp only [if_true] at hes
+      rw [hw']
+      omega
+    · simp only [hj, if_false] at hes
+      rw [heq hes, hrx, want_other w _ pi hother _ (by simpa using hj)]
+  · rename_i t j
+    simp only [] at hes
+    rw [heq hes, hrx]
+    simp [want]
+  · rename_i j
+    simp only [] at hes
+    rw [heq hes, hrx]
+    simp [want]
+  · rename_i j
+    by_cases hj : j = pi
+    · subst hj
+      have hw : want w (RTy.rejected, Cb.handleRejected j) ≤ 1 := by simp only [want, hp]; split <;> omega
+      have hw' : want (deactivate j p w) (RTy.rejected, Cb.handleRejected j) = 0 := by simp [want, hself]
+      simp only [if_true] at hes
+      rw [hw']
+      omega
+    · simp only [hj, if_false] at hes
+      rw [heq hes, hrx, want_other w _ pi hother _ (by simpa using hj)]
+
+theorem regOK_activate (pi : Nat) (p : PoolSt) (w : W) (hp : w.pools[pi]? = some p) (hna : p.active = false)
+    (hr : RegOK w) : RegOK (activate pi p w) := by
+  intro x
+  have hreg : (activate pi p w).reg = (regEntries pi p poolSubscribe).foldl (fun r e => Events.subscribe e.1 e.2 r) w.reg := by
+    simp [activate, subscribePool]
+  have hother : ∀ j, j ≠ pi → (activate pi p w).pools[j]? = w.pools[j]? := by
+    intro j hj
+    show (setPool w pi _).pools[j]? = _
+    rw [getElem?_setPool, if_neg (Ne.symm hj)]
+  have hself : (activate pi p w).pools[pi]? = some { p with active := true, used := true } := by
+    show (setPool w pi _).pools[pi]? = _
+    rw [getElem?_setPool]; simp [hp]
+  have hes := regEntries_subscribe pi p x
+  have hc : (activate pi p w).reg.count x = w.reg.count x + (regEntries pi p poolSubscribe).count x := by
+    rw [hreg]; exact count_foldl_subscribe x _ _
+  have hrx := hr x
+  rw [hc, hrx, hes]
+  obtain ⟨t, c⟩ := x
+  cases t <;> cases c
+  · rename_i t j
+    by_cases hj : j = pi
+    · subst hj
+      simp [want, hself, hp, hna]
+    · simp only [hj, if_false, Nat.add_zero]
+      exact (want_other w _ pi hother _ (by simpa using hj)).symm
+  · simp [want]
+  · simp [want]
+  · rename_i j
+    by_cases hj : j = pi
+    · subst hj
+      simp [want, hself, hp, hna]
+    · simp only [hj, if_false, Nat.add_zero]
+      exact (want_other w _ pi hother _ (by simpa using hj)).symm
+
 end Sv.Pool
